@@ -40,7 +40,8 @@ def untok(t):
 # ------------------------------------------------------------------------------------------------ builds
 def build_harness(ctx):
     lib = ctx.build_lib("c08lib", exclude=("lib/util/src/xxhash.c",))
-    return ctx.cc("h_c08", ["h_c08.c", "weak_xxh.c", str(lib)], libs=vlib.CODEC_LIBS)
+    return ctx.cc("h_c08", ["h_c08.c", "weak_xxh.c", str(lib)],
+                  libs=["-Wl,--wrap=hash_table_search_pre_hashed", "-Wl,--wrap=hash_table_insert_pre_hashed"] + vlib.CODEC_LIBS)
 
 
 def run_harness(ctx, harness, text, timeout=600):
@@ -226,21 +227,375 @@ def check_bw(ctx, harness, n_scripts, stats):
     return scripts
 
 
+# ------------------------------------------------------------------------------------------------ 2. bp scripts
+def toy_uncompress(b, limit):
+    if len(b) % 2:
+        return None
+    out = bytearray()
+    for k in range(0, len(b), 2):
+        n = b[k + 1]
+        if n == 0 or n > limit - len(out):
+            return None
+        out += bytes([b[k]]) * n
+    return bytes(out)
+
+
+def gen_bp_script(rng, big=False):
+    """files for the real block processor: few distinct full blocks and few distinct tails of equal sizes, so that
+    with a 0..8-bit checksum different contents collide on (size, checksum) all the time"""
+    if big:
+        B = 4096
+        hashbits = rng.choice([0, 1, 2, 4, 8])
+    else:
+        B = rng.choice([8, 8, 16, 16, 32, 64])
+        hashbits = rng.choice([0, 1, 2, 2, 3, 4, 8, 32])
+    codec = rng.choice(["toy", "toy", "gzip", "none"])
+    workers = rng.choice([1, 1, 2, 3, 4])
+    backlog = rng.choice([3, 3, 4, 5, 8, 12, 30])
+    pre = bytes(rng.getrandbits(8) for _ in range(rng.choice([0, 1, 96])))
+    alpha = rng.sample(range(1, 256), rng.randint(2, 3))
+    nblk = rng.randint(1, 5)
+    blocks = []
+    for _ in range(nblk):
+        r = rng.random()
+        if r < 0.35:      # two runs: compressible by the toy codec, many contents with the same compressed size
+            k = rng.randrange(1, B)
+            blocks.append(bytes([rng.choice(alpha)]) * k + bytes([rng.choice(alpha)]) * (B - k))
+        elif r < 0.45:
+            blocks.append(bytes(B))
+        else:
+            blocks.append(bytes(rng.choice(alpha) for _ in range(B)))
+    tail_sizes = rng.sample(range(1, B), min(B - 1, rng.randint(1, 3)))
+    tails = []
+    for _ in range(rng.randint(1, 8)):
+        n = rng.choice(tail_sizes)
+        if rng.random() < 0.08:
+            tails.append(bytes(n))
+        else:
+            tails.append(bytes(rng.choice(alpha) for _ in range(n)))
+    files = []
+    nfiles = rng.randint(1, 6) if big else rng.randint(1, 40)
+    for _ in range(nfiles):
+        if files and rng.random() < 0.3:
+            data, flags = rng.choice(files)[:2]
+            if rng.random() < 0.3:
+                flags = 0
+        else:
+            k = rng.choice([0, 0, 0, 1, 1, 2, 3])
+            data = b"".join(rng.choice(blocks) for _ in range(k))
+            if rng.random() < 0.85:
+                data += rng.choice(tails)
+            flags = 0
+            r = rng.random()
+            if r < 0.08:
+                flags |= F_DONT_FRAGMENT
+            elif r < 0.16:
+                flags |= F_DONT_DEDUP
+            elif r < 0.22:
+                flags |= F_DONT_COMPRESS
+            elif r < 0.26:
+                flags |= F_DONT_HASH
+            elif r < 0.30:
+                flags |= F_IGNORE_SPARSE
+        tail = data[len(data) - len(data) % B:]
+        if flags & F_IGNORE_SPARSE and tail and not any(tail) and not flags & F_DONT_FRAGMENT:
+            flags &= ~F_IGNORE_SPARSE          # an all-zero `nosparse` tail is defect D24 (property C17), kept out of C08's inputs
+        chunk = rng.choice([0, 0, 0, 1, 3, B, B + 1])
+        files.append((data, flags, chunk))
+    return {"B": B, "codec": codec, "workers": workers, "backlog": backlog, "hashbits": hashbits, "pre": pre,
+            "files": files, "sync_after": sorted(set(rng.sample(range(nfiles), rng.randint(0, min(3, nfiles)))))}
+
+
+def bp_script_lines(sc, nofile=0):
+    lines = ["bp-init %d %s %d %d %d %s %d" % (sc["B"], sc["codec"], sc["workers"], sc["backlog"], sc["hashbits"], tok(sc["pre"]), nofile)]
+    for k, (data, flags, chunk) in enumerate(sc["files"]):
+        lines.append("bp-file %x %d %s" % (flags, chunk, tok(data)))
+        if k in sc["sync_after"]:
+            lines.append("bp-sync")
+    lines.append("bp-finish")
+    return lines
+
+
+def parse_bp_output(out):
+    """out: lines of one script's output (op answers, then the dump). Returns dict."""
+    res = {"ops": [], "events": [], "inodes": {}, "frag": {}, "fb": {}, "file": None, "rd": {}, "end": None, "rderr": None}
+    for l in out:
+        t = l.split()
+        if not t:
+            continue
+        if t[0] in ("ok", "err", "bad-op"):
+            res["ops"].append(l)
+        elif t[0] in ("W", "T", "FR", "E"):
+            res["events"].append(t)
+        elif t[0] == "I":
+            if t[2] == "none":
+                res["inodes"][int(t[1])] = None
+            else:
+                kv = dict(x.split("=") for x in t[2:])
+                fi, fo = kv["frag"].split(":")
+                res["inodes"][int(t[1])] = {"size": int(kv["size"]), "start": int(kv["start"]), "sparse": int(kv["sparse"]),
+                                            "frag": (int(fi, 16), int(fo, 16)),
+                                            "blocks": [] if kv["blocks"] == "-" else [int(x, 16) for x in kv["blocks"].split(",")]}
+        elif t[0] == "F":
+            res["frag"][int(t[1])] = (int(t[2]), int(t[3], 16))
+        elif t[0] == "FB":
+            res["fb"][int(t[1])] = None if t[2] == "err" else untok(t[2])
+        elif t[0] == "file":
+            res["file"] = untok(t[1])
+        elif t[0] == "R":
+            res["rd"][int(t[1])] = " ".join(t[2:])
+        elif t[0] == "RD":
+            res["rderr"] = l
+        elif t[0] == "end":
+            res["end"] = int(t[1])
+    return res
+
+
+def raw_readback(sc, res, k):
+    """independent reader: bytes of file k from the inode fields, the fragment table and the output bytes"""
+    ino = res["inodes"].get(k)
+    data, flags, _ = sc["files"][k]
+    B = sc["B"]
+    if ino is None:
+        return None
+    out = bytearray()
+    pos = ino["start"]
+    remaining = ino["size"]
+    for w in ino["blocks"]:
+        want = min(B, remaining)
+        if w == 0:
+            out += bytes(want)
+        else:
+            n = w & 0xFFFFFF
+            raw = res["file"][pos:pos + n]
+            pos += n
+            if w & (1 << 24):
+                blk = raw
+            elif sc["codec"] == "gzip":
+                try:
+                    blk = zlib.decompress(raw)
+                except zlib.error:
+                    return b"<zlib error>"
+            else:
+                blk = toy_uncompress(raw, B)
+                if blk is None:
+                    return b"<toy error>"
+            out += blk
+        remaining -= want
+        if remaining < 0:
+            return b"<too many blocks>"
+    if remaining > 0:
+        fi, fo = ino["frag"]
+        fb = res["fb"].get(fi)
+        if fb is None:
+            return bytes(out) + b"<no fragment block>"
+        out += fb[fo:fo + remaining]
+    return bytes(out)
+
+
+def has_fragment(sc, k):
+    """does file k reach process_completed_fragment as a non-sparse fragment?"""
+    data, flags, _ = sc["files"][k]
+    B = sc["B"]
+    r = len(data) % B
+    if r == 0 or flags & F_DONT_FRAGMENT:
+        return False
+    tail = data[len(data) - r:]
+    if not any(tail) and not flags & F_IGNORE_SPARSE:
+        return False
+    return True
+
+
+def fd_script(sc, res):
+    """script for the fragment model from the implementation's event order; returns (lines, meta) where meta[i]
+    says what line i is about"""
+    B = sc["B"]
+    lines = ["fd-init %d %s 1" % (B, "toy" if sc["codec"] == "toy" else "ident")]
+    meta = [("init",)]
+    fragfiles = [k for k in range(len(sc["files"])) if has_fragment(sc, k)]
+    fr = 0
+    nfb = sum(1 for t in res["events"] if t[0] == "W" and int(t[2], 16) & F_FRAGBLK)
+    wfb = 0
+    for t in res["events"]:
+        if t[0] == "FR":
+            if fr >= len(fragfiles):
+                return None, "more fragments processed than submitted"
+            k = fragfiles[fr]
+            data, flags, _ = sc["files"][k]
+            tail = data[len(data) - len(data) % B:]
+            if int(t[2]) != len(tail):
+                return None, "fragment %d has size %s, expected %d" % (fr, t[2], len(tail))
+            lines.append("fd-frag %x %s %s" % (flags, t[1], tok(tail)))
+            meta.append(("frag", k))
+            fr += 1
+        elif t[0] == "W" and int(t[2], 16) & F_FRAGBLK:
+            if wfb == nfb - 1:
+                lines.append("fd-finish")
+                meta.append(("finish",))
+            lines.append("fd-written %d" % wfb)
+            meta.append(("written", wfb))
+            wfb += 1
+    if fr != len(fragfiles):
+        return None, "%d fragments processed, %d submitted" % (fr, len(fragfiles))
+    for i in range(nfb):
+        lines.append("fd-read %d" % i)
+        meta.append(("read", i))
+    return (lines, meta), None
+
+
+def check_bp_one(ctx, sc, out, stats, name):
+    """all oracles for one script; returns list of (kind, message) problems. kind: 'spec' (property violated on the
+    implementation) or 'corr' (model and code disagree)"""
+    problems = []
+    res = parse_bp_output(out)
+    nops = len(bp_script_lines(sc)) - 1
+    if res["end"] != 0 or any(o != "ok" for o in res["ops"]) or len(res["ops"]) != nops:
+        problems.append(("spec", "packing failed: ops=%s end=%s" % ([o for o in res["ops"] if o != "ok"][:3], res["end"])))
+        return problems, res
+    if res["rderr"]:
+        problems.append(("spec", "data reader could not be set up: " + res["rderr"]))
+    B = sc["B"]
+    # (1) the property's oracle, by the real reader and by raw offsets
+    for k, (data, flags, _) in enumerate(sc["files"]):
+        if res["rd"].get(k) != "ok":
+            problems.append(("spec", "file %d read back through sqfs_data_reader_t: %s (input %s)" % (k, str(res["rd"].get(k))[:80], data.hex()[:80])))
+        rb = raw_readback(sc, res, k)
+        if rb != data:
+            problems.append(("spec", "file %d read back by raw offsets gives %s, input %s" % (k, (rb or b"").hex()[:80], data.hex()[:80])))
+    # (2) identical files share (completeness, evaluated on the implementation)
+    first = {}
+    for k, (data, flags, _) in enumerate(sc["files"]):
+        ino = res["inodes"][k]
+        stored = any(w != 0 for w in ino["blocks"])
+        key = (data, flags)
+        if key in first and not flags & F_DONT_DEDUP and stored:
+            j = first[key]
+            if ino["start"] > res["inodes"][j]["start"] or ino["blocks"] != res["inodes"][j]["blocks"]:
+                problems.append(("spec", "file %d is identical to file %d but does not share its blocks (start %d vs %d)" % (
+                    k, j, ino["start"], res["inodes"][j]["start"])))
+            stats["bp_shared_files"] += 1
+        first.setdefault(key, k)
+    if not any(fl & (F_DONT_DEDUP | F_DONT_HASH) for _, fl, _ in sc["files"]):
+        tails = {sc["files"][k][0][len(sc["files"][k][0]) - len(sc["files"][k][0]) % B:] for k in range(len(sc["files"])) if has_fragment(sc, k)}
+        stored = sum(len(v) for v in res["fb"].values() if v is not None)
+        if stored != sum(len(t) for t in tails):
+            problems.append(("spec", "fragment blocks hold %d bytes but the distinct tail ends total %d: equal fragments stored twice or lost" % (
+                stored, sum(len(t) for t in tails))))
+    # (3) block-writer model on the implementation's own call trace
+    calls = [t for t in res["events"] if t[0] in ("W",)]
+    bw_lines = ["bw-init %s 0" % tok(sc["pre"])] + ["bw-write %s %s %s" % (t[1], t[2], t[3]) for t in calls] + ["bw-file"]
+    # (4) fragment model on the implementation's event order
+    fd, err = fd_script(sc, res)
+    if fd is None:
+        problems.append(("corr", "fragment events do not line up with the submitted files: " + err))
+        fd = ([], [])
+    text = "\n".join(bw_lines + fd[0]) + "\n"
+    model = ctx.driver(["c08"], text)
+    mb, mf = model[:len(bw_lines)], model[len(bw_lines):]
+    for t, m in zip(calls, mb[1:-1]):
+        impl = " ".join(t[4:])
+        if impl != m:
+            problems.append(("corr", "write_data_block(%s %s %s): impl '%s' model '%s'" % (t[1], t[2], t[3][:40], impl, m)))
+            break
+    if mb[-1] != "file " + tok(res["file"]):
+        problems.append(("corr", "final output bytes differ from the block-writer model"))
+    for (l, me, m) in zip(fd[0], fd[1], mf):
+        if me[0] == "frag":
+            ino = res["inodes"][me[1]]
+            want = "loc %d %d" % ino["frag"]
+            if m != want:
+                problems.append(("corr", "fragment of file %d: impl '%s' model '%s'" % (me[1], want, m)))
+                break
+        elif me[0] == "read":
+            fb = res["fb"].get(me[1])
+            if m != "read " + tok(fb or b""):
+                problems.append(("corr", "fragment block %d: impl %s model %s" % (me[1], tok(fb or b"")[:60], m[:60])))
+                break
+        elif m != "ok":
+            problems.append(("corr", "model refuses event '%s': %s" % (l, m)))
+            break
+    # statistics
+    for t in res["events"]:
+        if t[0] == "E":
+            stats["cmp_%s_%s" % (t[4], "equal" if t[5] == "1" else "differ")] += 1
+        elif t[0] == "T":
+            stats["bp_truncates"] += 1
+    stats["bp_scripts"] += 1
+    stats["bp_files"] += len(sc["files"])
+    stats["bp_writes"] += len(calls)
+    stats["bp_fragments"] += sum(1 for m in fd[1] if m[0] == "frag")
+    return problems, res
+
+
+def split_outputs(lines):
+    """split the harness output of several scripts at the `end` lines"""
+    outs, cur = [], []
+    for l in lines:
+        cur.append(l)
+        if l.startswith("end "):
+            outs.append(cur)
+            cur = []
+    return outs, cur
+
+
+def check_bp(ctx, harness, n_scripts, stats):
+    from collections import defaultdict
+    scripts = []
+    cdir = vlib.CORPUS / "C08"
+    if cdir.exists():
+        for p in sorted(cdir.glob("bp-*.json")):
+            d = json.loads(p.read_text())
+            d["pre"] = untok(d["pre"])
+            d["files"] = [(untok(a), b, c) for a, b, c in d["files"]]
+            scripts.append((d, "corpus:" + p.name))
+    for i in range(n_scripts):
+        scripts.append((gen_bp_script(ctx.rng, big=(i % 25 == 24)), "gen:%d" % i))
+    BATCH = 100
+    for b0 in range(0, len(scripts), BATCH):
+        batch = scripts[b0:b0 + BATCH]
+        text = "\n".join(l for sc, _ in batch for l in bp_script_lines(sc)) + "\n"
+        lines, rc, err = run_harness(ctx, harness, text, timeout=900)
+        outs, rest = split_outputs(lines or [])
+        if rc != 0 or len(outs) != len(batch):
+            sc, name = batch[min(len(outs), len(batch) - 1)]
+            ctx.violation("bp-crash:" + vlib.sha(json.dumps(bp_script_lines(sc)))[:12],
+                          "real block processor aborted (rc=%s) in script %s: %s" % (rc, name, (err or "")[-600:]),
+                          {"mode": "bp", "lines": bp_script_lines(sc), "stderr": err, "partial": rest[-20:]})
+            outs = outs[:len(batch)]
+        for (sc, name), out in zip(batch, outs):
+            problems, res = check_bp_one(ctx, sc, out, stats, name)
+            if not problems:
+                continue
+            spec = [m for k, m in problems if k == "spec"]
+            corr = [m for k, m in problems if k == "corr"]
+            lines_sc = bp_script_lines(sc)
+            key = vlib.sha(json.dumps(lines_sc))[:12]
+            if spec:
+                ctx.violation("bp-readback:" + key, "block processor (%s): %s" % (name, "; ".join(spec[:3])),
+                              {"mode": "bp", "lines": lines_sc, "problems": spec + corr})
+            else:
+                stats["disagreements"] += 1
+                ctx.violation("bp-corr:" + key, "block processor and model disagree (%s) while every file reads back: %s" % (name, "; ".join(corr[:3])),
+                              {"mode": "bp", "lines": lines_sc, "problems": corr}, found_input=False)
+
+
 def run(ctx):
     ok, problems = vlib.proof_gate(ctx, MODULE, REQUIRED)
     if not ok:
         ctx.violation("proof:C08", "proof obligations of C08 no longer check: " + " | ".join(problems)[:1500],
                       {"broken": problems, "theorems_file": "lean/Sqfs/Props/C08.lean"}, found_input=False)
     harness = build_harness(ctx)
-    stats = {"bw_scripts": 0, "bw_calls": 0, "bw_truncating_scripts": 0, "disagreements": 0}
+    from collections import defaultdict
+    stats = defaultdict(int)
     check_bw(ctx, harness, 1500 if ctx.quick() else 20000, stats)
+    check_bp(ctx, harness, 400 if ctx.quick() else 6000, stats)
     ctx.cov.update({
-        "evaluations": stats["bw_calls"],
+        "evaluations": stats["bw_calls"] + stats["bp_writes"] + stats["bp_fragments"],
         "distinct_nontrivial": stats["bw_truncating_scripts"],
         "rule": "bw: generated write_data_block sequences (1..14 files of 1..6 blocks, sizes from a 1..3-element set, 1..3-letter "
                 "alphabet, 0..3-bit checksums, 55% repeated blocks, 45% files derived from an earlier file); non-trivial = script in "
                 "which at least one LAST call truncated the output (a deduplication hit)",
-        "stats": stats,
+        "stats": dict(stats),
         "disagreements_checked": stats["disagreements"],
         "samples": [],
     })
